@@ -362,9 +362,18 @@ func doBatch() {
 			}
 			hashOut.Write(append(hbuf, nt))
 		}
+		if leakedRuns >= 40 {
+			// every abandoned run of the race build leaves its goroutines
+			// and pipes behind; stop this worker before that adds up
+			st.Probes["worker_stopped_early_after_40_abandoned_runs"]++
+			break
+		}
 		if k%64 == 63 {
 			runtime.GC()
 		}
+	}
+	if n := core.ForeignHookCalls.Load(); n > 0 {
+		st.Probes["hook_calls_from_goroutines_started_by_the_library"] = int(n)
 	}
 	st.HLL = hll.Reg
 	st.WallS = time.Since(start).Seconds()
@@ -376,6 +385,9 @@ func doBatch() {
 func account(st *Stats, hll *core.HLL, e *props.Env, idx uint64, out *props.Outcome, values []int, hashOut *os.File) bool {
 	if out.Skipped {
 		st.Skipped++
+		if out.Probes["tasks_left_parked_for_ever_race_build"] > 0 {
+			leakedRuns++
+		}
 		for k, v := range out.Probes {
 			if !strings.HasPrefix(k, "max_") {
 				st.Probes[k] += v
